@@ -1,6 +1,6 @@
 (* Properties/C04.v — RunOnLoop: accepted functions run exactly once, in order, and are never left waiting. *)
 From GN Require Import Common.Base Common.Int64 Model.Loop Model.LoopSrc Model.LoopTime Gen.LoopSkeleton
-  Proofs.LoopFrame Proofs.LoopCtl Proofs.LoopTimers Proofs.LoopInv Proofs.LoopProps Proofs.LoopTime Cases.LoopCheck Proofs.LoopReplay.
+  Proofs.LoopFrame Proofs.LoopCtl Proofs.LoopTimers Proofs.LoopInv Proofs.LoopProps Proofs.LoopTime Cases.LoopCheck Proofs.LoopReplay Proofs.LoopProgress.
 Open Scope Z_scope.
 
 (* in every reachable state, what has run, then what the current drain still holds, then the queue, is exactly the
@@ -37,6 +37,36 @@ Print Assumptions C04_no_lost_wakeup.
 Theorem C04_blocked_with_work_has_waker : forall k s, reach k s -> phase s = LBlocked -> aux s <> [] -> (0 < wakers s)%nat.
 Proof. exact blocked_with_work_has_waker. Qed.
 Print Assumptions C04_blocked_with_work_has_waker.
+
+(* progress form of "executed without any further submission being needed": while no stop was requested, every step of the
+   run thread (other than serving a timer job: Go's select picks among ready arms at random) and every delivered wake-up
+   strictly decreases a well-founded measure of the queued function x - (functions in front of it, not yet in the batch being
+   executed, steps of the run thread to its next drain) - until x has run or the loop is on its way out ... *)
+Theorem C04_head_progress : forall k s x m p a b s',
+  reach k s -> tph s = TNone -> canrun s = true -> measure x s = Some m ->
+  helpful p b = true -> step k s p a b = Some s' ->
+  In x (executed s') \/ leaving (phase s') = true \/ (exists m', measure x s' = Some m' /\ lt3 m' m).
+Proof. exact head_progress. Qed.
+Print Assumptions C04_head_progress.
+
+(* ... no step of a submitter, of Stop()/StopNoWait() or of a timer helper moves it away ... *)
+Theorem C04_other_threads_keep : forall k s x m p a b s',
+  reach k s -> running s = true -> measure x s = Some m -> neutral p = true -> step k s p a b = Some s' ->
+  exists m', measure x s' = Some m' /\ le3 m' m.
+Proof. exact other_threads_keep. Qed.
+Print Assumptions C04_other_threads_keep.
+
+(* ... a run thread blocked in its select with x queued always has a wake-up on its way, whose delivery is such a step ... *)
+Theorem C04_blocked_is_woken : forall k s x m,
+  reach k s -> phase s = LBlocked -> measure x s = Some m -> idx x (batch s) = None ->
+  exists s', step k s aux_wakeup 0 0 = Some s' /\ phase s' = LArmW /\ exists m', measure x s' = Some m' /\ lt3 m' m.
+Proof. exact blocked_is_woken. Qed.
+Print Assumptions C04_blocked_is_woken.
+
+(* ... and the measure cannot decrease for ever *)
+Theorem C04_measure_well_founded : well_founded lt3.
+Proof. exact lt3_wf. Qed.
+Print Assumptions C04_measure_well_founded.
 
 Theorem C04_terminate_runs_all_accepted : forall k s, reach k s -> (tph s = TCan \/ tph s = TDrain) -> executed s = accepted s /\ aux s = [].
 Proof. exact terminate_runs_all_accepted. Qed.
